@@ -32,7 +32,7 @@ func TestC18(t *testing.T) {
 
 func TestC18Mesh(t *testing.T) {
 	st := vx.NewStats("C18", "mesh", "real in-process meshes of 2-5 nodes (spanning tree + extra edges = cycles, ordered links with drawn delays), 0-2 nodes joining late; 1-12 events "+
-		"{open advertised datagram / stream / TLS-stream listener with tags, close one, close one while re-opening the same service concurrently, open 24-48 services on one node and close them across one advertisement period, join} at drawn gaps; oracle: within 40 ad periods + 8 s every node lists exactly the open advertised services of all nodes "+
+		"{open advertised datagram / stream / TLS-stream listener with tags, close one, close one while re-opening the same service concurrently, open 60-180 services on one node and close them across one advertisement period, join} at drawn gaps; oracle: within 40 ad periods + 8 s every node lists exactly the open advertised services of all nodes "+
 		"with type and tags, and still does three periods later; non-trivial = >= 1 close and a late joiner; distinct by canonical JSON")
 	defer st.Flush()
 	r := &vx.Runner{Name: "C18.mesh", Timeout: 150 * time.Second, Recycle: 30}
@@ -46,7 +46,7 @@ func TestC18Mesh(t *testing.T) {
 		s.Late = rapid.SliceOfN(rapid.IntRange(0, n-1), 0, 2).Draw(t, "late")
 		ne := rapid.IntRange(1, 12).Draw(t, "nev")
 		for i := 0; i < ne; i++ {
-			s.Events = append(s.Events, C18Event{K: rapid.SampledFrom([]string{"open", "open", "open", "open", "close", "close", "join", "reopen", "reopen", "storm"}).Draw(t, "k"),
+			s.Events = append(s.Events, C18Event{K: rapid.SampledFrom([]string{"open", "open", "open", "open", "close", "close", "join", "reopen", "reopen", "storm", "storm"}).Draw(t, "k"),
 				Node: rapid.IntRange(0, n-1).Draw(t, "node"), Svc: rapid.IntRange(0, 2).Draw(t, "svc"), Kind: rapid.SampledFrom([]int{0, 0, 0, 1, 3}).Draw(t, "kind"),
 				Tags: rapid.IntRange(0, 3).Draw(t, "tags"), GapMs: rapid.SampledFrom([]int{0, 0, 20, 100, 350}).Draw(t, "gap")})
 		}
